@@ -643,7 +643,11 @@ def run_lsq(case, ctx, rng):
             # pre-crack: the nodes of the lower half nearest to the middle of the bar
             xm = info["Lx"] / 2
             col = mesh.coord[np.argmin(np.abs(mesh.coord[:, 0] - xm)), 0]
-            ncrack = np.where((np.abs(mesh.coord[:, 0] - col) < 1e-9) & (mesh.coord[:, 1] <= mesh.coord[:, 1].mean()))[0]
+            used_ = gm.used_nodes(mesh)
+            ncrack = used_[(np.abs(mesh.coord[used_, 0] - col) < 1e-9) & (mesh.coord[used_, 1] <= mesh.coord[used_, 1].mean())]
+            if len(ncrack) == 0:
+                # (an unstructured mesh has no column of nodes: the node nearest to the middle of the bar and its neighbours)
+                ncrack = used_[np.argsort(np.hypot(mesh.coord[used_, 0] - xm, mesh.coord[used_, 1] - mesh.coord[used_, 1].min()))[:2]]
             dval = float(rng.choice([1.0, 0.6]))
             for step in range(1, 4):
                 simu.Bc_Init()
